@@ -474,6 +474,7 @@ pub fn labels(c: &Case, r: &RunOut) -> Vec<&'static str> {
         1 => l.push("children_without_drop_glue"),
         2 => l.push("values_without_drop_glue"),
         3 => l.push("errors_without_drop_glue"),
+        5 => l.push("zero_sized_values"),
         4 => l.push("heterogeneous_tuple"),
         _ => {}
     }
